@@ -311,6 +311,9 @@ def units(tier, seed):
         Dp = 2 if 'slow' in prog.tags else D
         out.append(Unit('C03/%s/D%d,P%d' % (prog.name, Dp, Pp), 'symx.props.c03', 'h_prog',
                         {'pname': prog.name, 'D': Dp, 'P': Pp}, dict(opts)))
+    if tier == 'quick':
+        for pn in ['exp', 'x*x', 'sin', 'square', 'reciprocal', 'negative', 'x*x[::-1]', 'expm1', 'logit', 'erf', 'dawsn', 'hyperu', 'polygamma1', 'sqrt', 'log', 'absolute']:
+            out.append(Unit('C03/%s/D3,P1' % pn, 'symx.props.c03', 'h_prog', {'pname': pn, 'D': 3, 'P': 1}, dict(opts)))
     n = 12 if tier == 'quick' else 160
     for i in range(n):
         length = 3 + (i % 4) if tier == 'quick' else 3 + (i % 8)
